@@ -459,8 +459,33 @@ def run_case(case):
     spec = dict(spec, thr=thr)
     fsize = spec['fsize']
     filtered = fsize != 1
-    b = scenes.construct(spec) if (filtered or thr is not None) else b1
+    # representation of the masks: the unfiltered object above (per-box reference, counts, exclusion) was built
+    # with the representation as drawn. A non-boolean coverage_mask is known to corrupt the full maps (known
+    # finding, judged right below), so the map / relation / configuration checks that follow use the boolean
+    # coverage_mask of the same layout; the representation of `mask` is kept throughout.
+    spec_raw = spec
+    cov_nonbool = cov is not None and spec['cov_repr'][0] != 'bool'
+    if cov_nonbool:
+        spec = dict(spec, cov_repr=('bool', spec['cov_repr'][1]))
+    b = scenes.construct(spec) if (filtered or thr is not None or cov_nonbool) else b1
     out = scenes.outputs(b)
+    if mask is not None:
+        case.note('mask_repr:%s/%s' % spec_raw['mask_repr'])
+    if cov is not None:
+        case.note('coverage_mask_repr:%s/%s' % spec_raw['cov_repr'])
+    plain = ((mask is None or spec_raw['mask_repr'] == scenes.PLAIN)
+             and (cov is None or spec_raw['cov_repr'] == scenes.PLAIN))
+    if not plain:
+        o_plain = scenes.outputs(scenes.construct(dict(spec_raw, mask_repr=scenes.PLAIN, cov_repr=scenes.PLAIN)))
+        o_raw = scenes.outputs(scenes.construct(spec_raw)) if cov_nonbool else out
+        for k in ('mesh', 'rmesh', 'npix', 'med', 'rmed', 'bkg', 'rms'):
+            m3 = dict(mech, coverage_mask_nonbool=True) if (cov_nonbool and k in ('bkg', 'rms')) else mech
+            case.close(o_raw[k], o_plain[k], 'mask_representation_' + k, mech=m3)
+        case.note('mask_representation_cases')
+        if data.dtype.kind != 'f' or bool(np.isfinite(data).all()):
+            case.note('mask_representation_cases_data_all_finite')
+            if (mask is None) != (cov is None):
+                case.note('mask_representation_cases_data_all_finite_single_mask')
     M, Mr = out['mesh'], out['rmesh']
 
     if filtered:
